@@ -1,4 +1,4 @@
-import Holpy.C07.TypeLex
+import Holpy.C07.LexPrint
 import Holpy.C07.SeqText
 /-
 C07 — `thm_lex_print`: the lexer reads the text of `print_thm` back as the tokens `printThm`.
@@ -51,7 +51,7 @@ theorem thm_lex_print_core (hT : TextOK T L S) (hQ : SeqTextOK Q S) (uni : Bool)
       have h3 := Steps.append hm (Steps.cons_ws htail) (fun rest _ => follow_blank _)
       have h2 := Steps.append hl h3 (fun rest _ => by
         have := hypsMore_follow (T := T) (L := L) hQ uni hs
-          (32 :: (symTxt S (Q.turn uni) ++ 32 :: printText T L uni c) ++ rest) (follow_blank _)
+          (32 :: (symTxt S (Q.turn uni) ++ 32 :: printText T L S uni c) ++ rest) (follow_blank _)
         simpa [List.append_assoc] using this)
       simpa [printThmText, printThm, List.append_assoc] using h2
   obtain ⟨f', hf, he⟩ := hall [] [] ((printThmText T L S Q uni hyps c).length + 1) (Or.inl rfl) (by simp)
